@@ -9,6 +9,7 @@ package c18
 import (
 	"bytes"
 	"fmt"
+	"reflect"
 	"sort"
 	"sync"
 
@@ -77,6 +78,9 @@ func loadSynth(sp synthfont.Spec) (*fontEntry, error) {
 			}
 		}
 	}
+	nd := 0
+	hintingDevices(reflect.ValueOf(face.GPOS.Lookups), 0, &nd)
+	fe.device = nd > 0
 	if len(synthCache) >= 512 {
 		synthCache = map[synthfont.Spec]*fontEntry{}
 	}
@@ -162,6 +166,7 @@ func genSynthCase(t *rapid.T) (*fontEntry, *Case) {
 	}
 	c.Cluster = rapid.SampledFrom([]int{0, 0, 1}).Draw(t, "clusterLevel")
 	c.Flags = rapid.SampledFrom([]int{3, 3, 3, 3, 3, 0, 1, 2, 3 | 4, 3 | 8}).Draw(t, "flags")
+	genInstance(t, fe, c)
 	return fe, c
 }
 
